@@ -352,6 +352,11 @@ def op_search(task):
             for after in ("m", " m", "\tm", ";"):
                 for pre in ("", "x ", "\t"):
                     structured.append(pre + head + inner + tail + after)
+    # escapes whose backslash is written as the trigraph ??/ (the escaped character is plain)
+    for lit in ('"a??/nb"', "'??/n'", '"??/""', '"??/??/"', "'??/''", '"x??/ty"', '"??/x41z"', "'??/0'", '"%d??/n"'):
+        for pre in ("", "x = ", "\t"):
+            for after in (";", " z", "\n"):
+                structured.append(pre + lit + after)
     # identifiers that look like keywords (GNU spellings, other case, a keyword as prefix or suffix):
     # their text is their own, whatever the tokenizer calls them
     for w in ("__inline__", "__inline", "__restrict", "__restrict__", "__const", "__const__", "__signed__", "__volatile__",
